@@ -113,10 +113,15 @@ def _small_ints(rng, n):
 
 
 def _round_f32(t):
-    try:
-        return struct.unpack('<f', struct.pack('<f', t))[0]
-    except OverflowError:
-        return math.copysign(3.0e38, t)
+    t = max(-3.0e38, min(3.0e38, t))
+    return struct.unpack('<f', struct.pack('<f', t))[0]
+
+
+def _round_f16(t):
+    import numpy as np
+    with np.errstate(all='ignore'):
+        v = float(np.float16(max(-6.0e4, min(6.0e4, t))))
+    return v
 
 
 def typed(term, dt):
@@ -132,17 +137,28 @@ def typed(term, dt):
         return np.int64(int(term))
     if dt == 'i32':
         return np.int32(int(term))
+    if dt == 'arr0d':
+        return np.array(term)
+    if dt == 'longdouble':
+        return np.longdouble(term)
+    if dt == 'f16':
+        return np.float16(term)
     return int(term)
 
 
 def make_stream(rng, n, families):
     fam = rng.choice(families)
     terms, meta = FAMILIES[fam](rng, n)
-    if rng.random() < 0.25:
+    r = rng.random()
+    if r < 0.25:
         sc = 10.0 ** rng.randint(-30, 30)
         terms = [t * sc for t in terms]
         meta['scaled'] = sc
-    terms = [float(t) if abs(t) < 1e100 else math.copysign(1e100, t) for t in terms]
+    elif r < 0.30:
+        sc = 10.0 ** (rng.choice([-1, 1]) * rng.randint(100, 145))
+        terms = [t * sc for t in terms]
+        meta['scaled'] = sc
+    terms = [float(t) if abs(t) < 1e150 else math.copysign(1e150, t) for t in terms]
     return terms, meta
 
 
@@ -158,8 +174,32 @@ def generate(run_seed, mode='seq'):
     nt = 1 if mode == 'seq' else rng.choice([2, 2, 3, 4, 4, 8])
     p_abort = rng.choice([0.0, 0.0, 0.02])
     p_retire = rng.choice([0.0, 0.02, 0.1])
-    dtype_mode = rng.choice([None, None, None, 'f64', 'f32', 'i64', 'i32', 'pyint'])
+    dtype_mode = rng.choice([None, None, None, 'f64', 'f32', 'i64', 'i32', 'pyint', 'arr0d',
+                             'longdouble', 'f16'])
     tasks = []
+    if mode == 'seq' and rng.random() < 0.08:
+        # many short-lived instances: anything that depends on how many accelerators were ever
+        # created in the process (counters, pools, registries) shows up here.  A handful of
+        # distinct streams is reused so that only a handful of lone-instance references is needed.
+        pool = []
+        for _ in range(rng.randint(1, 4)):
+            terms, meta = make_stream(rng, rng.randint(3, 9), fams)
+            cls = 'EpsAlg' if rng.random() < p_eps else 'Dea'
+            pool.append((cls, rng.randint(3, 12), terms, meta))
+        ops = []
+        ninst = rng.randint(60, 300)
+        for j in range(ninst):
+            cls, lim, terms, meta = pool[rng.randrange(len(pool))]
+            op = {'op': 'spawn', 'i': 't0.i%d' % (j + 1), 'terms': terms, 'meta': meta, 'np': None,
+                  'cls': cls}
+            if cls == 'Dea':
+                op['limexp'] = lim
+            ops.append(op)
+            ops.extend({'op': 'feed', 'i': op['i']} for _ in terms)
+            if rng.random() < 0.5:
+                ops.append({'op': 'retire', 'i': op['i']})
+        return {'property': ID, 'mode': mode, 'tasks': [{'ops': ops}], 'trace': False,
+                'many_instances': ninst}
     for tid in range(nt):
         ninst = rng.randint(1, 6 if mode == 'seq' else 3)
         ops, live, counter = [], {}, 0
@@ -177,6 +217,8 @@ def generate(run_seed, mode='seq'):
                 terms, meta = make_stream(rng, n, fams)
                 if dt == 'f32':
                     terms = [_round_f32(t) for t in terms]
+                elif dt == 'f16':
+                    terms = [_round_f16(t) for t in terms]
             op = {'op': 'spawn', 'i': name, 'terms': terms, 'meta': meta, 'np': dt}
             if rng.random() < p_eps:
                 op['cls'] = 'EpsAlg'
@@ -507,7 +549,14 @@ def check_dea(terms, recs, extra, limexp):
             tol = 1e-9 * max(scale, abs(r3))
             if not abs(res - r3) <= tol:
                 return {'kind': 'dea_vs_dea3', 'k': 2, 'dea': res, 'dea3': r3}, cnt
-        if not conv and not near_conv and epsinf is not None and epsinf > Fraction(1, 1000):
+        # EpsAlg treats a table difference below 1e-60 (absolute) as vanished; with a margin, the
+        # comparison with EpsAlg is only made when none of the three-term table's differences is
+        # anywhere near that (same rule as in check_epsalg)
+        eps_ok = False
+        if not conv:
+            diffs = [abs(d2), abs(d3), abs(1 / d2 - 1 / d3)]
+            eps_ok = min(diffs) >= Fraction(1, 10 ** 50)
+        if eps_ok and not near_conv and epsinf is not None and epsinf > Fraction(1, 1000):
             ev = extra['epsalg3']
             cnt['dea_eps_checked'] += 1
             tol = 1e-9 * max(scale, abs(ev))
@@ -532,6 +581,9 @@ def judge(plan, result, refs):
              'max_ntasks': nt, 'runs_by_ntasks': {str(nt): 1},
              'instances_interleaved': 0, 'max_stream_len': 0,
              'families': {}, 'limexp_seen': set(), 'capped_runs': 1 if sched['capped'] else 0}
+    if plan.get('many_instances'):
+        stats['many_instance_runs'] = 1
+        stats['max_instances_in_one_process'] = plan['many_instances']
     by_inst = {}
     order = []
     for ob in result['obs']:
@@ -587,8 +639,8 @@ def judge(plan, result, refs):
             k = next(i for i, (a, b) in enumerate(zip(recs, ref_recs)) if a != b)
             detail = {'kind': 'isolation', 'k': k, 'observed': recs[k], 'lone_instance': ref_recs[k]}
         if detail is None:
-            if cls == 'EpsAlg' and sp.get('np') == 'f32':
-                detail, cnt = None, {}          # single-precision arithmetic: only isolation is judged
+            if cls == 'EpsAlg' and sp.get('np') in ('f32', 'f16', 'longdouble'):
+                detail, cnt = None, {}   # arithmetic not in doubles (the witness is): isolation only
             elif cls == 'EpsAlg':
                 detail, cnt = check_epsalg(terms, recs)
             else:
@@ -722,6 +774,7 @@ def evidence(tier, seed, by_mode, det, n_viol, known_hits, errors, wall):
             'max_stream_len': s.get('max_stream_len', 0),
             'families': s.get('families', {}),
             'term_types': s.get('term_types', {}),
+            'runs_with_60_to_300_instances_in_one_process': s.get('many_instance_runs', 0),
             'limexp_values_seen': sorted(s.get('limexp_seen', set())),
             'epsalg_exact_checks': s.get('eps_checked', 0),
             'epsalg_exact_checks_beyond_25_terms': s.get('eps_checked_beyond_25', 0),
